@@ -6,6 +6,7 @@ import (
 	"fmt"
 	"go/types"
 	"math"
+	"strconv"
 	"strings"
 
 	"golang.org/x/tools/go/ssa"
@@ -384,6 +385,13 @@ func timeSub(fr *frame, a []value) value {
 func timeNow(fr *frame, a []value) value {
 	i := fr.i
 	ts := i.ts
+	if i.w.ex.cfg.TimeFixed {
+		// a fixed instant (websocket harnesses: write deadlines never expire)
+		pkg := i.prog.ImportedPackage("time")
+		loc := i.globals[pkg.Var("localLoc")]
+		const u2i = (1969*365 + 1969/4 - 1969/100 + 1969/400) * 86400
+		return structure{uint64(0), int64(1700000000 + u2i), loc}
+	}
 	sec := i.fresh(64, types.Int64)
 	ns := i.fresh(32, types.Uint32)
 	i.assume(ts.And(ts.Bin(OpSle, ts.Const(64, 0), sec.t), ts.Bin(OpSlt, sec.t, ts.Const(64, 1<<33))))
@@ -476,5 +484,105 @@ func init() {
 			fr.i.storeAddr(dt, lv, src[1])
 		}
 		return nil
+	}
+}
+
+// ---------------------------------------------------------------------------------------
+// Stubs used by the websocket harnesses.
+
+func structField(t types.Type, name string) int {
+	st := t.Underlying().(*types.Struct)
+	for k := 0; k < st.NumFields(); k++ {
+		if st.Field(k).Name() == name {
+			return k
+		}
+	}
+	panic("no field " + name + " in " + t.String())
+}
+
+func init() {
+	// a timer whose channel is never ready (assumption: the 1000 h / writeWait lock wait never expires)
+	externals["time.NewTimer"] = func(fr *frame, a []value) value {
+		pkg := fr.i.prog.ImportedPackage("time")
+		tt := pkg.Type("Timer").Object().Type()
+		var cell value = zero(tt)
+		cell.(structure)[structField(tt, "C")] = &channel{never: true, capacity: 1}
+		return &cell
+	}
+	// strconv on a symbolic integer: the argument is concretised (forked over its feasible
+	// values), then formatted natively
+	externals["strconv.Itoa"] = func(fr *frame, a []value) value {
+		return strconv.Itoa(int(fr.i.concreteInt(a[0], "strconv.Itoa argument")))
+	}
+	externals["strconv.FormatInt"] = func(fr *frame, a []value) value {
+		return strconv.FormatInt(fr.i.concreteInt(a[0], "strconv.FormatInt argument"), int(fr.i.concreteInt(a[1], "base")))
+	}
+	externals["strconv.FormatUint"] = func(fr *frame, a []value) value {
+		return strconv.FormatUint(uint64(fr.i.concreteInt(a[0], "strconv.FormatUint argument")), int(fr.i.concreteInt(a[1], "base")))
+	}
+	externals["(*time.Timer).Stop"] = func(fr *frame, a []value) value { return true }
+	externals["(*time.Timer).Reset"] = func(fr *frame, a []value) value { return true }
+	// the mask key source: unconstrained
+	externals["math/rand.Uint32"] = func(fr *frame, a []value) value { return fr.i.fresh(32, types.Uint32) }
+	externals["math/rand.Int63"] = func(fr *frame, a []value) value {
+		s := fr.i.fresh(64, types.Int64)
+		fr.i.assume(fr.i.ts.Bin(OpSle, fr.i.ts.Const(64, 0), s.t))
+		return s
+	}
+	// sync.Pool: Get calls New (or returns nil), Put drops the value
+	externals["(*sync.Pool).Get"] = func(fr *frame, a []value) value {
+		pkg := fr.i.prog.ImportedPackage("sync")
+		pt := pkg.Type("Pool").Object().Type()
+		p := (*a[0].(*value)).(structure)
+		fn := p[structField(pt, "New")]
+		switch f := fn.(type) {
+		case *ssa.Function:
+			if f == nil {
+				return iface{}
+			}
+		case *closure:
+			if f == nil {
+				return iface{}
+			}
+		default:
+			return iface{}
+		}
+		return call(fr.i, fr, 0, fn, nil)
+	}
+	externals["(*sync.Pool).Put"] = func(fr *frame, a []value) value { return nil }
+	externals["(*sync.Once).Do"] = func(fr *frame, a []value) value {
+		o := a[0].(*value)
+		m := fr.i.mutex(o)
+		fr.i.yield("once")
+		if !m.locked { // reuse the mutex record's flag as the done flag
+			m.locked = true
+			call(fr.i, fr, 0, a[1], nil)
+			fr.i.release(&m.vc)
+		} else {
+			fr.i.acquire(&m.vc)
+		}
+		return nil
+	}
+	// websocket.maskBytes: below 16 bytes the real function is interpreted (no unsafe code is
+	// reached); at or above, the word-wise unsafe implementation is replaced by the byte-wise
+	// semantics of mask_safe.go from the same tree.
+	externals[repoModule+"/websocket.maskBytes"] = func(fr *frame, a []value) value {
+		b := a[2].([]value)
+		if len(b) < 16 {
+			return notHandled{}
+		}
+		i := fr.i
+		key := a[0].(array)
+		pos := int(i.concreteInt(a[1], "maskBytes pos"))
+		for k := range b {
+			kb := key[pos&3]
+			if isSym(b[k]) || isSym(kb) {
+				b[k] = i.mkVal(i.ts.Bin(OpBXor, i.term(b[k], types.Uint8), i.term(kb, types.Uint8)), types.Uint8)
+			} else {
+				b[k] = b[k].(uint8) ^ kb.(uint8)
+			}
+			pos++
+		}
+		return pos & 3
 	}
 }
